@@ -15,7 +15,8 @@ namespace Ymq.MpqsPoly
 open Ymq.SiqsPoly (invMod chk256 wrap256 bitlen Prime)
 
 /-- 2^1024 -/
-def U1024 : Nat := 2 ^ 1024
+def U1024 : Nat :=
+  179769313486231590772930519078902473361797697894230657273430081157732675805500963132708477322407536021120113879871393357658789768814416622492847430639474124377767893424865485276302219601246094119453082952085005768838150682342462881473913110540827237163350510684586298239947245938479716304835356329624224137216
 
 /-- a `Uint` result -/
 def chkU (x : Nat) : Option Nat := if x < U1024 then some x else none
@@ -30,42 +31,60 @@ structure Poly where
   dinv : Nat
 deriving Repr
 
-/-- `make_poly(n, d, r)` -/
-def makePoly (n d r : Nat) : Option Poly :=
+/-- the Hensel lift of `make_poly`: `b = h1 + h2·D` with `h1 = r`,
+`h2 = ((n − h1²)/D mod D)·(2 h1)⁻¹ mod D` -/
+def henselB (n d r : Nat) : Option Nat :=
   if d = 0 then none                                             -- `% d`
   else if r * r % d ≠ n % d then none                            -- debug_assert
-  else do
-    let h1 := r
-    let hh ← chkU (h1 * h1)
-    if n < hh then none                                          -- n - h1 * h1 underflows
+  else
+    match chkU (r * r) with
+    | none => none
+    | some hh =>
+      if n < hh then none                                        -- n - h1 * h1 underflows
+      else
+        match invMod (2 * r) d with                              -- inv_mod(&(h1 << 1), &d).unwrap()
+        | none => none
+        | some i => chkU (r + (n - hh) / d % d * i % d * d)
+
+/-- `if !b.bit(0) { b = d * d - b }` -/
+def oddB (d b0 : Nat) : Nat := if b0 % 2 = 0 then d * d - b0 else b0
+
+/-- `if b.bit(0) { b = d * d - b }` -/
+def evenB (d b0 : Nat) : Nat := if b0 % 2 = 1 then d * d - b0 else b0
+
+/-- `n ≡ 1 (mod 4)`: odd `b`, `C = (b² − n)/(4D²)` -/
+def mkOdd (n d b0 dinv : Nat) : Option Poly :=
+  if d * d < b0 ∧ b0 % 2 = 0 then none                           -- d * d - b underflows
+  else
+    let b := oddB d b0
+    if b * b % (4 * (d * d)) ≠ n % (4 * (d * d)) then none       -- debug_assert
     else
-      let c := (n - hh) / d % d
-      let i ← invMod (2 * h1) d                                  -- inv_mod(&(h1 << 1), &d).unwrap()
-      let h2 := c * i % d
-      let b ← chkU (h1 + h2 * d)
-      let dinv ← (if n = 0 then none else invMod d n)            -- inv_mod(&d, &n).unwrap()
+      let c := Int.tdiv (((b * b : Nat) : Int) - (n : Int)) ((4 * (d * d) : Nat) : Int)
+      if ¬ (bitlen c.natAbs < 256) then none                     -- assert!
+      else some { a := d * d % 2 ^ 256, b := b % 2 ^ 256, c := wrap256 c,
+                  bb := (n + b) / 2, d, dinv }
+
+/-- otherwise: even `b`, `C = (b² − n)/D²`, the stored `b` is `2b` -/
+def mkEven (n d b0 dinv : Nat) : Option Poly :=
+  if d * d < b0 ∧ b0 % 2 = 1 then none
+  else
+    let b := evenB d b0
+    let c := Int.tdiv (((b * b : Nat) : Int) - (n : Int)) ((d * d : Nat) : Int)
+    if ¬ (bitlen c.natAbs < 256) then none                       -- assert!
+    else some { a := d * d % 2 ^ 256, b := 2 * b % 2 ^ 256, c := wrap256 c, bb := b, d, dinv }
+
+/-- `make_poly(n, d, r)` -/
+def makePoly (n d r : Nat) : Option Poly :=
+  match henselB n d r with
+  | none => none
+  | some b =>
+    match (if n = 0 then none else invMod d n) with              -- inv_mod(&d, &n).unwrap()
+    | none => none
+    | some dinv =>
       if ¬ (bitlen d < 128) then none                            -- assert!
       else if ¬ (bitlen b < 256) then none                       -- assert!
       else if b * b % (d * d) ≠ n % (d * d) then none            -- debug_assert
-      else if n % 4 = 1 then
-        -- want an odd b
-        if d * d < b ∧ b % 2 = 0 then none                       -- d * d - b underflows
-        else
-          let b := if b % 2 = 0 then d * d - b else b
-          if b * b % (4 * (d * d)) ≠ n % (4 * (d * d)) then none -- debug_assert
-          else
-            let c := Int.tdiv (((b * b : Nat) : Int) - (n : Int)) ((4 * (d * d) : Nat) : Int)
-            if ¬ (bitlen c.natAbs < 256) then none               -- assert!
-            else some { a := d * d % 2 ^ 256, b := b % 2 ^ 256, c := wrap256 c,
-                        bb := (n + b) / 2, d, dinv }
-      else
-        -- want even b
-        if d * d < b ∧ b % 2 = 1 then none
-        else
-          let b := if b % 2 = 1 then d * d - b else b
-          let c := Int.tdiv (((b * b : Nat) : Int) - (n : Int)) ((d * d : Nat) : Int)
-          if ¬ (bitlen c.natAbs < 256) then none
-          else some { a := d * d % 2 ^ 256, b := 2 * b % 2 ^ 256, c := wrap256 c, bb := b, d, dinv }
+      else if n % 4 = 1 then mkOdd n d b dinv else mkEven n d b dinv
 
 /-- `Poly::eval(x)`: `(P(x), y)`, `y = |ax + bb| · dinv` (unreduced `Uint` product). -/
 def eval (pol : Poly) (x : Int) : Option (Int × Nat) := do
@@ -78,6 +97,9 @@ def eval (pol : Poly) (x : Int) : Option (Int × Nat) := do
 
 /-- the closure `shift` of `prepare_prime`: position relative to the start of the interval -/
 def shift (p off r : Nat) : Nat := if r < off then r + p - off else r - off
+
+/-- `x / 2 mod p` for odd `p`: `if x & 1 == 0 { x >> 1 } else { (x + p) >> 1 }` -/
+def halfMod (p x : Nat) : Nat := if x % 2 = 0 then x / 2 else (x + p) / 2
 
 /-- `Poly::prepare_prime(p, r, div, inv, dinv, offset)`; `dinv` = inverse of `D` modulo `p`
 (0 when `p ∣ D`), as `Workspace::batch_inversion` provides it. -/
@@ -102,7 +124,7 @@ def preparePrime (pol : Poly) (p r dinv : Nat) (offset : Int) : Option (Nat × N
       let d2inv := dinv * dinv % p
       let ab : Nat × Nat :=
         if pol.b % 2 = 1 then
-          ((if d2inv % 2 = 0 then d2inv / 2 else (d2inv + p) / 2), pol.b % p)
+          (halfMod p d2inv, pol.b % p)
         else (d2inv, pol.bb % p)
       let ainv := ab.1
       let b := ab.2
